@@ -34,7 +34,7 @@ CHECKS = {
     spec="RpycTeardown", design="5/C11", level="model_checking",
     technique="TLA+ spec RpycTeardown (connection life cycle at public-call granularity with read/write faults) model-checked by TLC; fault enumeration on the real Connection+Channel+SocketStream stack over scripted sockets (failure at every recv/send call, fragmented runs for mid-packet positions, all close orders) with every run's event log trace-validated by TLC and judged at each public-call boundary; TLA+ spec RpycServeEof (RpycServe plus the peer vanishing: liveness EveryoneEnds, counterexample without the notification in serve()'s finally block) model-checked; the peer vanishing at arbitrary scheduling points while 2-3 real threads share the connection; real OS pipes whose peer disappears without CLOSE; every statement of close()/_cleanup() as a window in which a second thread of the same side closes (sys.monitoring breakpoints)",
     text="TLC exhausts issue/serve/close/wait with socket read and write faults at any point and all orders of the two close() calls for hook-at-most-once, closed-implies-clean, no invented value, no hang; the same obligations are checked on the real stack for every single transport call position of four workloads (sync, async, nested callbacks, references both ways), and the recorded event logs are accepted by the spec",
-    note="one fault per run; poll() itself is not failed; sides single-threaded and serving while idle; a reply-send failure in a bare serve() may leave closed false until the next serve (reading note in DESIGN.md)"),
+    note="one fault per run; the readiness call (poll) is failed only for a side sitting in serve_all(); sides single-threaded and serving while idle; a reply-send failure in a bare serve() may leave closed false until the next serve (reading note in DESIGN.md)"),
  "C15": dict(
     spec="RpycAsync", design="5/C15; two genuine defects found by these additions are recorded as fixed (concurrent clean-up)",
     technique="TLA+ spec RpycAsync (one AsyncResult in discrete virtual time: reply, unrelated traffic, expiry, queries, callbacks, wait) model-checked by TLC; TLC -simulate behaviours replayed on a real AsyncResult/Connection under a virtual clock with the program's observation log compared with the specification's; sync_request and timed() driven through the same behaviours",
@@ -98,7 +98,7 @@ CHECKS = {
     "C16": dict(
         spec="RpycServer", design="5/C16",
         technique="TLA+ spec RpycServer (accept, authenticate, serve, misbehaving clients, close) model-checked by TLC; state-graph paths replayed against real ThreadedServer / ThreadPoolServer / OneShotServer over real TCP and unix sockets (with and without authenticator) plus a ForkingServer probe in a child process; every good client's per-connection counter, service instance, credentials and exported object are compared with the specification after every bad client; TLA+ spec RpycServerSteps (accept loop, serving threads and close() as separate steps) model-checked, its schedules forced on the real server threads at statement granularity with sys.monitoring breakpoints (one thread held in a window while another client connects, calls or leaves)",
-        text="TLC exhausts 2 good clients x bad clients of 8 kinds x server close; transition-cover paths are executed on the real servers: after any misbehaving client (random bytes, truncated packet, absurd length, corrupt compressed data, garbage payload, connect-and-leave, failed authentication, half a header) every good client's next call must return its own counter, a new good client must be accepted and served, no object exported to one connection is reachable from another",
+        text="TLC exhausts 2 good clients x bad clients of 9 kinds x server close; transition-cover paths are executed on the real servers: after any misbehaving client (random bytes, truncated packet, absurd length, corrupt compressed data, garbage payload, connect-and-leave, failed authentication, half a header, a well-formed conversation that answers the server's own request with SystemExit / KeyboardInterrupt / GeneratorExit) every good client's next call must return its own counter, a new good client must be accepted and served, no object exported to one connection is reachable from another",
         note="real sockets and threads, conditions awaited with deadlines; stalled clients stay below the pool size"),
     "C17": dict(
         spec="RpycServer", design="5/C17",
